@@ -57,6 +57,12 @@ def run_case(c, rng):
     if side.random() < 0.4:
         spec['options']['extra_hydraulic'] = dict(spec['options'].get('extra_hydraulic') or {}, unbalanced='CONTINUE', unbalanced_value=side.choice([10, 0, 2]))
         c.count('unbalanced_continue_cases')
+    if not isinstance(spec['options']['report_timestep'], str) and side.random() < 0.15:
+        # a report step that is larger than the hydraulic step without being a multiple of it (the simulator announces that it
+        # reduces it to the next lower multiple)
+        h_ = spec['options']['hydraulic_timestep']
+        spec['options']['report_timestep'] = h_ * side.choice([1, 1, 2]) + side.choice([h_ // 2, h_ // 3, 60])
+        c.count('report_step_not_a_multiple_cases')
     sample = {'spec': spec}
     c.sample = {'spec_summary': gnet.signature(spec)}
     wn = gnet.build(spec)
